@@ -1,5 +1,59 @@
 import Cellml.Basic.Sexp
-/-! Channel C02 of the model driver (stub: not built yet). -/
+import Cellml.C02.Model
+
+/-! Channel C02: `(C02 <mml>)` → `(ok <sy>)` | `(err <PythonErrorClass>)` | `(outside "why")`.
+
+    mml ::= `(ci "name")` | `(cn <opt> <opt> (kid…))` | `(el "tag" mml…)`        opt ::= `none` | `(some "text")`
+    kid ::= `(sep <opt>)` | `(other <opt>)`                                       (the child's tail text)
+    sy  ::= `(num p/q)` `(int n)` `(special s)` `(sym "x")` `(const c)` `(cls c)` `(wrapped m)` `(rel c)`
+            `(app head sy…)` `(tuple sy sy)` `(pylist sy…)` -/
 namespace C02
-def handle (_args : List Sexp) : Sexp := .atom "not-implemented"
+open Sexp
+
+def opt? : Sexp → Option String
+  | .list [.atom "some", .str s] => some s
+  | .list [.atom "some", .atom s] => some s
+  | _ => none
+
+def kid? : Sexp → (Bool × Option String)
+  | .list [.atom "sep", o] => (true, opt? o)
+  | .list [_, o] => (false, opt? o)
+  | _ => (false, none)
+
+partial def mmlOf : Sexp → Mml
+  | .list [.atom "ci", n] => .ci ((atomOf? n).getD "")
+  | .list [.atom "cn", ty, text, .list kids] => .cn (opt? ty) (opt? text) (kids.map kid?)
+  | .list (.atom "el" :: tag :: kids) => .el ((atomOf? tag).getD "") (Mml.ofList (kids.map mmlOf))
+  | _ => .el "?bad-request" .nil
+
+partial def syOut : Sy → Sexp
+  | .nil => .list [.atom "pylist"]
+  | .cons h t => .list (.atom "pylist" :: (Sy.cons h t).toList.map syOut)
+  | .num q => .list [.atom "num", ofRat q]
+  | .int n => .list [.atom "int", ofInt n]
+  | .special s => .list [.atom "special", .atom s]
+  | .sym n => .list [.atom "sym", .str n]
+  | .const c => .list [.atom "const", .atom c]
+  | .cls c => .list [.atom "cls", .atom c]
+  | .wrapped m => .list [.atom "wrapped", .atom m]
+  | .rel c => .list [.atom "rel", .atom c]
+  | .app h args => .list (.atom "app" :: .atom h :: args.toList.map syOut)
+  | .tuple e c => .list [.atom "tuple", syOut e, syOut c]
+  | .pylist xs => .list (.atom "pylist" :: xs.toList.map syOut)
+
+def errOut : Err → Sexp
+  | .value => .list [.atom "err", .atom "ValueError"]
+  | .type => .list [.atom "err", .atom "TypeError"]
+  | .index => .list [.atom "err", .atom "IndexError"]
+  | .attribute => .list [.atom "err", .atom "AttributeError"]
+  | .outside w => .list [.atom "outside", .str w]
+
+def handle (args : List Sexp) : Sexp :=
+  match args with
+  | [t] =>
+    match transpile (mmlOf t) with
+    | .ok e => .list [.atom "ok", syOut e]
+    | .error e => errOut e
+  | _ => .atom "bad-request"
+
 end C02
